@@ -158,7 +158,7 @@ void h_augment(void)
 
 def auto_ref_locals(ex, body):
     """`auto& x = e;` -> pointer to e plus an lvalue macro, undefined at the end of the enclosing block."""
-    rx = re.compile(r'auto&\s+(\w+)\s*=\s*([^;]+);')
+    rx = re.compile(r'(?:const\s+)?auto&\s+(\w+)\s*=\s*([^;]+);')
     n = 0
     pos = 0
     while True:
